@@ -49,6 +49,7 @@ def run(ctx):
     ctx.preload(cfgs)
     for cfg in cfgs:
         fs = ctx.facts(cfg)
+        import c08, c09, c11, c02
         ctx.guard(consumers.ledger, ctx, cfg, fs, 'L.ledger')
         ctx.guard(consumers.ledger_callers, ctx, cfg, fs, 'L.ledger')
         ctx.guard(consumers.forkers, ctx, cfg, fs, 'L.ledger')
@@ -63,7 +64,6 @@ def run(ctx):
         ctx.guard(tokenizer_context_free, ctx, cfg, fs)
         ctx.guard(c08.keep_only, ctx, lambda: c08.matched(ctx, cfg, fs), lambda o: 'failure-is-first-outcome' in o.key or 'inner-failure-is-final' in o.key, 'R.scope-restore')
         ctx.guard(consumers.accept_sets, ctx, cfg, fs, 'A.accept-sets')
-        import c08, c09, c11, c02
         ctx.guard(c08.keep_only, ctx, lambda: c02.equals_value(ctx, cfg, fs), lambda o: True, 'A.accept-sets')
         if fs.find(r'complete_run::.*ArgScanner.*check_next$', required=False):
             ctx.guard(c08.keep_only, ctx, lambda: c11.completion_marker(ctx, cfg, fs), lambda o: True, 'K.marker-only')
